@@ -930,7 +930,7 @@ def l2_stage(chk, name, consts, sample=60):
     try:
         cfg = os.path.join(wd, name + ".cfg")
         vlib.write_cfg(cfg, consts, view="View", action_constraint="EmitEndA",
-                       invariants=("XFirstCommitterWins", "XConsistentSnapshot", "XAtomicRead"))
+                       invariants=("XFirstCommitterWins", "XConsistentSnapshot", "XAtomicRead", "DesignHypotheses"))
         emitted = os.path.join(wd, "emitted.ndjson")
         r = vlib.run_tlc("FsDbConc.tla", cfg, wd, timeout=1500, emit_to=emitted, extra_args=("-continue",))
         st = chk.add_tlc("l2_" + name, r, consts)
